@@ -522,10 +522,12 @@ func ruleKeyEgress(c *eng.Ctx) {
 	if fi := c.Anchor(rule, "internal/kms.(*pubSubService).getEncryptionKeysLocally"); fi != nil {
 		info := fi.Pkg.TypesInfo
 		var hasPerm types.Object
+		var permCall *ast.CallExpr
 		ast.Inspect(fi.Decl.Body, func(m ast.Node) bool {
 			if as, ok := m.(*ast.AssignStmt); ok && len(as.Rhs) == 1 && len(as.Lhs) == 2 {
 				if call, ok := as.Rhs[0].(*ast.CallExpr); ok && strings.HasSuffix(eng.CalleeName(info, call), "doesIdentityHaveDocPermission") {
 					hasPerm = eng.ObjOf(info, as.Lhs[0])
+					permCall = call
 				}
 			}
 			return true
@@ -552,20 +554,11 @@ func ruleKeyEgress(c *eng.Ctx) {
 				if id, ok := call.Fun.(*ast.Ident); !ok || id.Name != "append" {
 					return true
 				}
-				pt, _ := flow.PointOf(as)
-				un := flow.ReachesWithout(pt, func(ast.Node) bool { return false }, func(cond ast.Expr, taken bool) bool {
-					t := eng.EvalBool(info, cond, func(e ast.Expr) eng.Tri {
-						if eng.ObjOf(info, e) == hasPerm {
-							return eng.True
-						}
-						return eng.Unknown
-					})
-					if (t == eng.True && taken) || (t == eng.False && !taken) {
-						return false
-					}
-					return true
-				})
-				c.Check(!un, rule, "getEncryptionKeysLocally:append-after-permission", as.Pos(), "a key block is released only on the permission check's true edge", "a key block is added to the result without the requester having passed the document permission check")
+				pt, okp := flow.PointOf(as)
+				// every path of the iteration to the append passes the permission call, and with its
+				// answer false the append is unreachable (see gatedAt)
+				gated := okp && deniedUnreachable(info, flow, rs.Body, permCall, hasPerm, pt, nil)
+				c.Check(gated, rule, "getEncryptionKeysLocally:append-after-permission", as.Pos(), "a key block is released only after the permission check answered true", "a key block is added to the result on a path where the requester has not passed the document permission check (the check is skipped, its result preset, or a denied requester falls through)")
 				return true
 			})
 			return true
